@@ -454,6 +454,21 @@ def mk_cmp(lhs: Term, op: str, rhs: Term) -> Formula:
             return e if op == '==' else f_not(e)
         return ATruthy(App(op, (lhs, rhs)))
     d = sub(lhs, rhs)
+    # |e| + r <= 0  <=>  e + r <= 0 and -e + r <= 0 ;  -|e| + r <= 0  <=>  r - e <= 0 or r + e <= 0   (all reals)
+    if op in ('<=', '<', '>=', '>'):
+        dm = to_mons(d)
+        absm = [(m, cf) for m, cf in dm.items() if len(m) == 1 and isinstance(m[0], App) and m[0].fn == 'abs' and cf in (1, -1)]
+        if len(absm) == 1:
+            (m, cf), = absm
+            e = m[0].args[0]
+            r = from_mons({k: v for k, v in dm.items() if k != m})
+            upper = (op in ('<=', '<')) == (cf == 1)      # the comparison bounds |e| from above
+            zero = Num(Fraction(0))
+            if cf == 1:
+                a1, a2 = mk_cmp(add(e, r), op, zero), mk_cmp(add(neg(e), r), op, zero)
+            else:
+                a1, a2 = mk_cmp(sub(r, e), op, zero), mk_cmp(add(r, e), op, zero)
+            return f_and(a1, a2) if upper else f_or(a1, a2)
     base, c = split_const(d)
     if isinstance(base, Num):      # constant comparison
         v = c
